@@ -19,6 +19,7 @@ from datetime import (
     timedelta,
     timezone,
 )
+from decimal import Decimal
 from io import BytesIO
 from itertools import count
 from typing import (
@@ -1657,9 +1658,9 @@ class Message(ABC):
                     )
                 elif sub_cls == timedelta:
                     value = (
-                        [timedelta(seconds=float(item[:-1])) for item in value]
+                        [_Duration.delta_from_json(item) for item in value]
                         if isinstance(value, list)
-                        else timedelta(seconds=float(value[:-1]))
+                        else _Duration.delta_from_json(value)
                     )
                 elif not meta.wraps:
                     value = (
@@ -2081,11 +2082,19 @@ class _Duration(Duration):
 
     @staticmethod
     def delta_to_json(delta: timedelta) -> str:
-        parts = str(delta.total_seconds()).split(".")
-        if len(parts) > 1:
-            while len(parts[1]) not in (3, 6, 9):
-                parts[1] = f"{parts[1]}0"
-        return f"{'.'.join(parts)}s"
+        # Integer arithmetic: floats lose precision for large values and
+        # switch to exponent notation for small ones.
+        total_us = delta // timedelta(microseconds=1)
+        sign = "-" if total_us < 0 else ""
+        seconds, micros = divmod(abs(total_us), 10**6)
+        if micros % 1000 == 0:
+            return f"{sign}{seconds}.{micros // 1000:03d}s"
+        return f"{sign}{seconds}.{micros:06d}s"
+
+    @staticmethod
+    def delta_from_json(value: str) -> timedelta:
+        micros = int(Decimal(value.rstrip("s")) * 10**6)
+        return timedelta(microseconds=micros)
 
 
 class _Timestamp(Timestamp):
